@@ -9,7 +9,7 @@ From WW Require Stable3Pool.
 From WW.Proofs Require Stable3PoolProofs.
 From WW.Props Require C04.
 From WW Require Vault.
-From WW.Proofs Require VaultProofs.
+From WW.Proofs Require VaultProofs VaultFees.
 
 (* for every history from a fresh pool: pending = charged - transferred; all-time counters = sums of charges *)
 Theorem C07_ledger_identity : forall c0 c1 f n own ops, fees_ok f -> (1 <= n)%nat ->
@@ -91,6 +91,26 @@ Theorem C07_vault_collect_frame : forall st st', VaultProofs.Inv st -> Vault.col
   Vault.backing st' = Vault.backing st /\ Vault.lp st' = Vault.lp st.
 Proof. exact VaultProofs.collect_Q. Qed.
 
+(* vault, WHOLE histories (any operations by any users, borrower scripts with loans nested to any depth, router loans with or
+   without attached coins, rejected operations rolled back), on real balances rather than ghost variables:
+   the all-time counters only grow; every burned unit leaves the circulating amount of the vault asset and nothing else
+   changes it; the protocol fees charged and no longer pending (all-time minus pending) grow by at most what the fee
+   collector's balance grows by, and by EXACTLY that amount when no borrower script pays the collector directly - i.e.
+   pending = charged - transferred to the collector, after every step of every history. *)
+Theorem C07_vault_ledgers_over_histories : forall h st, VaultProofs.Inv st ->
+  let st' := Vault.run st h in
+  Vault.allf st <= Vault.allf st' /\ Vault.burned st <= Vault.burned st' /\
+  VaultFees.circ st' + Vault.burned st' = VaultFees.circ st + Vault.burned st /\
+  VaultFees.settled st' - VaultFees.settled st <= VaultFees.coll st' - VaultFees.coll st /\
+  (forallb VaultFees.op_nopay h = true ->
+   VaultFees.settled st' - VaultFees.settled st = VaultFees.coll st' - VaultFees.coll st).
+Proof. exact VaultFees.run_FL. Qed.
+
+(* the same for one borrower script of any depth (what a single transaction can do) *)
+Theorem C07_vault_ledgers_in_scripts : forall s L st st', VaultProofs.Inv st -> Vault.run_script L s st = Ok st' ->
+  VaultFees.FL (VaultFees.nopay s) st st'.
+Proof. exact (proj2 VaultFees.script_FL). Qed.
+
 (* non-vacuity: a history with charges on both assets, a collection that sends one entry and keeps the other *)
 Definition ex7_fees := mkFees 20000000000000000 3000000000000000 5000000000000000.
 Definition ex7_ops : list op :=
@@ -103,6 +123,30 @@ Example C07_nonvacuous :
    (0 <? g_bn1 (snd sg)) && (0 <? g_ch0 (snd sg))) = true.
 Proof. split. vm_compute; repeat split; congruence. vm_compute. reflexivity. Qed.
 
+
+(* non-vacuity for the vault histories: deposit, a loan, a collection, a NESTED loan, a router loan (exact identity: 1000 settled
+   = 1000 received by the collector, 3250 burned = fall of the circulating amount), then a loan whose script also pays the
+   collector 5 directly (the identity becomes an inequality), and a rejected underpaid loan (rolled back) *)
+Definition ex7v_st0 : Vault.state :=
+  Vault.mkSt [0; 0; 5000000; 0; 0; 0; 4000000; 5000000; 0] [0; 0; 0; 0; 0; 0; 0; 0; 0] 0 0 0 0
+             (Vault.mkCfg 10000000000000000 10000000000000000 5000000000000000 true true true Vault.FACT false).
+Definition ex7v_h : list Vault.op :=
+  [ Vault.ODeposit 6%nat 1000000 1000000;
+    Vault.ORun (Vault.SCons (Vault.ALoan 100000 (Vault.SCons (Vault.ARepayQ 0) Vault.SNil)) Vault.SNil);
+    Vault.OCollect 7%nat;
+    Vault.ORun (Vault.SCons (Vault.ALoan 200000 (Vault.SCons (Vault.ALoan 300000 (Vault.SCons (Vault.ARepayQ 0) Vault.SNil))
+                                                  (Vault.SCons (Vault.ARepayQ 0) Vault.SNil))) Vault.SNil);
+    Vault.ORouterLoan 7%nat 50000 50000 (Vault.SCons (Vault.APay Vault.ROUTER 52000) Vault.SNil) ].
+Definition ex7v_h2 : list Vault.op :=
+  ex7v_h ++ [ Vault.ORun (Vault.SCons (Vault.ALoan 1000 (Vault.SCons (Vault.APay Vault.COLL 5) (Vault.SCons (Vault.ARepayQ 0) Vault.SNil))) Vault.SNil);
+              Vault.ORun (Vault.SCons (Vault.ALoan 1000 (Vault.SCons (Vault.ARepayQ (-1)) Vault.SNil)) Vault.SNil) ].
+Example C07_vault_histories_nonvacuous :
+  let s := Vault.run ex7v_st0 ex7v_h in let s2 := Vault.run ex7v_st0 ex7v_h2 in
+  (forallb VaultFees.op_nopay ex7v_h = true /\ VaultFees.settled s = 1000 /\ VaultFees.coll s = 1000 /\ Vault.pend s = 5500 /\
+   Vault.allf s = 6500 /\ Vault.burned s = 3250 /\ VaultFees.circ s = 13996750 /\ VaultFees.circ ex7v_st0 = 14000000) /\
+  (forallb VaultFees.op_nopay ex7v_h2 = false /\ VaultFees.settled s2 = 1000 /\ VaultFees.coll s2 = 1005 /\ Vault.allf s2 = 6510).
+Proof. vm_compute. repeat split; reflexivity. Qed.
+
 Print Assumptions C07_ledger_identity.
 Print Assumptions C07_ghost_run_is_run.
 Print Assumptions C07_counters_only_grow.
@@ -113,3 +157,5 @@ Print Assumptions C07_unfixed_collect_refuted.
 Print Assumptions C07_trio_ledgers_over_histories.
 Print Assumptions C07_vault_loan_charges.
 Print Assumptions C07_vault_collect_frame.
+Print Assumptions C07_vault_ledgers_over_histories.
+Print Assumptions C07_vault_ledgers_in_scripts.
